@@ -332,8 +332,11 @@ theorem cntF_runFrame (p : Prog) (hh : Hist) {s : St} {f : Frame} (h : CntF s f)
     split
     · exact cnt_gen h (by lt) (ct_emit_quiet _ _ rfl) rfl (fs := [.flush]) rfl (by lts)
     · rename_i a _
-      exact cnt_gen h (by lt) (by simp only [ct_push]; exact (ct_of_trace rfl).trans (ct_enqueue s a)) (by simp [St.push])
-        (fs := [.exclActs sys (i + 1)]) (by simp [St.push]) (by lts)
+      split
+      · exact cnt_gen h (by lt) (by simp only [ct_push]; exact (ct_of_trace rfl).trans (ct_enqueue s a)) (by simp [St.push])
+          (fs := [.flush, .exclActs sys (i + 1)]) (by simp [St.push]) (by lts)
+      · exact cnt_gen h (by lt) (by simp only [ct_push]; exact (ct_of_trace rfl).trans (ct_enqueue s a)) (by simp [St.push])
+          (fs := [.exclActs sys (i + 1)]) (by simp [St.push]) (by lts)
   | topActs t i =>
     simp only [runFrame, doTopActs]
     split
